@@ -1,6 +1,7 @@
 import IronCalc.Formula.LexGlue
 import IronCalc.Codec.RefsProofs3
 import IronCalc.Codec.SheetNameProofs
+import IronCalc.Props.C22
 /-
   Helper lemmas for Props/C09Lex.lean: `next_token` reads back the text of one token, class by class.
 -/
@@ -900,6 +901,192 @@ theorem nextToken_cellStart (cfg : LexCfg) (h : CfgOK cfg) (sh : Option (List Ch
         simp only [Option.isNone_none, Bool.true_and] at hp
         cases hac : r.absCol <;> cases har : r.absRow <;> simp_all), hcr]
 
+/-! ### whole-column and whole-row ranges -/
+
+theorem printA1_pre' (pre : List Char) (cr cc : Int) (r : PRef) (fr fc : Bool) (hg : InGrid cr cc r) :
+    printA1 pre cr cc r fr fc = pre ++ printA1 [] cr cc r fr fc := by
+  obtain ⟨h1, h2, h3, h4⟩ := hg
+  unfold resolvedRow at h1 h2
+  unfold resolvedCol at h3 h4
+  unfold printA1 numberToColumn isValidColumnNumber LAST_COLUMN LAST_ROW
+  simp only [List.nil_append]
+  generalize (if r.absRow = true then r.row else r.row + cr) = row at *
+  generalize (if r.absCol = true then r.column else r.column + cc) = col at *
+  have e1 : ¬ (row < 1 ∨ row > ((1048576 : Nat) : Int)) := by omega
+  have e2 : (decide (1 ≤ col) && decide (col ≤ ((16384 : Nat) : Int))) = true := by simp; omega
+  simp only [e1, if_false, e2, if_true]
+
+theorem isValidColumn_numToCol (c : Nat) (hc1 : 1 ≤ c) (hc2 : c ≤ 16384) :
+    isValidColumn (numToCol c) = true := by
+  have hcn := columnToNumber_numToCol c hc1 hc2
+  have hlen := numToCol_length_le3 c (by omega)
+  unfold isValidColumn
+  have hl : ¬ (numToCol c).length > 3 := by omega
+  simp only [hl, if_false, hcn, isValidColumnNumber, LAST_COLUMN]
+  simp
+  exact ⟨by omega, by apply decide_eq_true; omega⟩
+
+/-- a text starting with column letters and `:` (no sheet, no `$`) -/
+theorem nextToken_colStart (cfg : LexCfg) (h : CfgOK cfg) (c : Nat) (hc1 : 1 ≤ c) (hc2 : c ≤ 16384)
+    (Y : List Char) (rg : PRange) (rest' : List Char)
+    (hcell : consumeRangeA1 (numToCol c ++ ':' :: Y) = some (rg, rest')) :
+    nextToken cfg (numToCol c ++ ':' :: Y) = some (ofRefTok (tokOfRange none rg, rest')) := by
+  have hvc := isValidColumn_numToCol c hc1 hc2
+  have hup : (numToCol c).all isUpper = true := numToCol_all_upper c
+  have hne := numToCol_ne_nil c (by omega)
+  have hall : (numToCol c).all (isIdentChar cfg.cc) = true := by
+    rw [List.all_eq_true] at hup ⊢
+    intro x hx
+    exact alpha_identChar cfg h x (h.upper_alpha x (hup x hx))
+  have hstop : stops (isIdentChar cfg.cc) (':' :: Y) = true := by
+    simp [stops, isIdentChar, h.special_not_alnum ':' (by decide)]
+  have k2 := takeWhile_app _ (numToCol c) _ hall hstop
+  have k3 := dropWhile_app _ (numToCol c) _ hall hstop
+  have hupper := upperStr_fixed cfg h (numToCol c) (fun x hx => Or.inl (List.all_eq_true.mp hup x hx))
+  have hnt : numToCol c ≠ cfg.trueName := by intro e; rw [e, h.true_not_col] at hvc; cases hvc
+  have hnf : numToCol c ≠ cfg.falseName := by intro e; rw [e, h.false_not_col] at hvc; cases hvc
+  obtain ⟨x, tl, hx⟩ := List.exists_cons_of_ne_nil hne
+  have hcs : isIdentStart cfg.cc x = true := by
+    have := numToCol_all_upper c
+    rw [hx] at this
+    simp only [List.all_cons, Bool.and_eq_true] at this
+    simp [isIdentStart, h.upper_alpha x this.1]
+  have hstart : nextToken cfg (numToCol c ++ ':' :: Y) = some (identBranch cfg (numToCol c ++ ':' :: Y)) := by
+    rw [hx, List.cons_append]
+    exact nextToken_identStart cfg h x _ hcs
+  rw [hstart]
+  unfold identBranch
+  simp only [k2, k3, hupper, hnt, hnf, h.a1, hvc, hcell]
+  simp [headIs]
+
+theorem f64Parses_digits (c : Char) (ds : List Char) (hc : isDigit c = true) (hd : ds.all isDigit = true) :
+    f64Parses (c :: ds) = true := by
+  have hns : ¬ (c = '-' ∨ c = '+') := by
+    intro e; rcases e with e | e <;> subst e <;> revert hc <;> decide
+  have hall : (c :: ds).all isDigit = true := by simp [hc, hd]
+  have h1 : (c :: ds).takeWhile isDigit = c :: ds := by
+    have := takeWhile_app isDigit (c :: ds) [] hall rfl
+    simpa using this
+  have h2 : (c :: ds).dropWhile isDigit = [] := by
+    have := dropWhile_app isDigit (c :: ds) [] hall rfl
+    simpa using this
+  unfold f64Parses stripSign
+  simp only [Bool.or_eq_true, decide_eq_true_eq, hns, if_false, h1, h2]
+  simp
+
+/-- a text starting with row digits and `:` (no sheet, no `$`): the digit branch takes the row-range path -/
+theorem nextToken_rowStart (cfg : LexCfg) (h : CfgOK cfg) (r : Nat) (Y : List Char)
+    (L R : PRef) (rest' : List Char)
+    (hcell : consumeRangeA1 (natToDec r ++ ':' :: Y) = some ({ left := L, right := some R }, rest')) :
+    nextToken cfg (natToDec r ++ ':' :: Y) = some (.range none L R, rest') := by
+  obtain ⟨c, ds, hx⟩ := List.exists_cons_of_ne_nil (natToDec_ne_nil r)
+  have hall := natToDec_all_digit r
+  rw [hx] at hall hcell ⊢
+  simp only [List.all_cons, Bool.and_eq_true] at hall
+  obtain ⟨hc, hd⟩ := hall
+  have hal := h.digit_alnum c hc
+  have hdecd : cfg.decimal ≠ ':' := by rcases h.decimal with e | e <;> rw [e] <;> decide
+  simp only [List.cons_append] at hcell ⊢
+  rw [nextToken_other cfg c _ (h.white_alnum c hal) (alnum_notSpecial cfg h c hal)]
+  simp only [hc, if_true]
+  have hs : stops isDigit (':' :: Y) = true := by simp [stops]; decide
+  have hnum : consumeNumber cfg.decimal c (ds ++ ':' :: Y) = (c :: ds, ':' :: Y) := by
+    unfold consumeNumber
+    rw [takeWhile_app isDigit ds _ hd hs, dropWhile_app isDigit ds _ hd hs]
+    have hfr : numFrac cfg.decimal (':' :: Y) = ([], ':' :: Y) := by
+      simp [numFrac, Ne.symm hdecd]
+    have hex : numExp (':' :: Y) = ([], ':' :: Y) := by
+      unfold numExp
+      split
+      · rename_i e x u heq
+        simp only [List.cons.injEq] at heq
+        obtain ⟨he, _⟩ := heq
+        subst he
+        simp
+      · rfl
+    simp [hfr, hex]
+  unfold digitBranch
+  rw [hnum]
+  simp only [f64Parses_digits c ds hc hd, Bool.not_true, Bool.false_eq_true, if_false, h.a1,
+    dropWhile_head (h.white_special ':' (by decide)), headIs, Bool.true_and]
+  simp [hcell]
+
+
+/-- a whole-column / whole-row range text `body`, after any sheet prefix -/
+theorem nextToken_openStart (cfg : LexCfg) (h : CfgOK cfg) (sh : Option (List Char)) (hsh : sheetOK sh = true)
+    (body rest' : List Char) (L R : PRef)
+    (hcell : consumeRangeA1 body = some ({ left := L, right := some R }, rest'))
+    (hshape : (∃ t, body = '$' :: t) ∨
+      (∃ c Y, 1 ≤ c ∧ c ≤ 16384 ∧ body = numToCol c ++ ':' :: Y) ∨
+      (∃ r Y, body = natToDec r ++ ':' :: Y)) :
+    nextToken cfg (sheetPrefix cfg.cc sh ++ body) = some (.range sh L R, rest') := by
+  have hcr : ∀ s, consumeRange cfg.cc true s body = (.range s L R, rest') := by
+    intro s; unfold consumeRange; simp [hcell, tokOfRange]
+  cases sh with
+  | some n =>
+    have hn : n ≠ [] := by intro e; subst e; simp [sheetOK] at hsh
+    simp only [sheetPrefix]
+    rw [nextToken_ref_sheet cfg h n hn, hcr]
+    rfl
+  | none =>
+    simp only [sheetPrefix, List.nil_append]
+    rcases hshape with ⟨t, ht⟩ | ⟨c, Y, hc1, hc2, hb⟩ | ⟨r, Y, hb⟩
+    · rw [ht] at hcr ⊢
+      rw [nextToken_dollar cfg h, hcr]
+      rfl
+    · rw [hb] at hcell ⊢
+      rw [nextToken_colStart cfg h c hc1 hc2 Y _ rest' hcell]
+      rfl
+    · rw [hb] at hcell ⊢
+      exact nextToken_rowStart cfg h r Y L R rest' hcell
+
+theorem printRangeA1_pre (pre : List Char) (l r : PRef) (hl : InGrid 0 0 l) :
+    printRangeA1 pre 0 0 l r = pre ++ printRangeA1 [] 0 0 l r := by
+  unfold printRangeA1
+  rw [printA1_pre' pre 0 0 l _ _ hl]
+  simp
+
+/-- whole-column and whole-row ranges (`A:C`, `$3:5`, any sheet prefix) -/
+theorem nextToken_range_open (cfg : LexCfg) (h : CfgOK cfg) (sh : Option (List Char)) (l r : PRef)
+    (rest : List Char) (hsh : sheetOK sh = true) (hl : refOK l = true) (hr : refOK r = true)
+    (hopen : (fullRowOf l r || fullColOf l r) = true)
+    (hrest : stops isAlphaOrDigit rest = true) :
+    nextToken cfg (printRangeA1 (sheetPrefix cfg.cc sh) 0 0 l r ++ rest) = some (.range sh l r, rest) := by
+  have hgl := refOK_inGrid l hl
+  have hgr := refOK_inGrid r hr
+  rw [printRangeA1_pre _ l r hgl, List.append_assoc]
+  have hres : ∀ x : PRef, InGrid 0 0 x → 1 ≤ (resolvedCol 0 x).toNat ∧ (resolvedCol 0 x).toNat ≤ 16384 := by
+    intro x hx; obtain ⟨_, _, h3, h4⟩ := hx; omega
+  by_cases hfr : fullRowOf l r = true
+  · have hcell := a1_column_range_roundtrip 0 0 l r rest hgl hgr hfr hrest
+    simp only [tokenOf_zero] at hcell
+    apply nextToken_openStart cfg h sh hsh _ rest l r hcell
+    have hfc := fullColOf_false_of_fullRow l r hfr
+    unfold printRangeA1
+    rw [hfr, hfc, printA1_colonly 0 0 l hgl, printA1_colonly 0 0 r hgr]
+    cases hac : l.absCol with
+    | true =>
+      simp only [colText, withDollar, if_true, List.cons_append]
+      exact Or.inl ⟨_, rfl⟩
+    | false =>
+      simp only [colText, withDollar, Bool.false_eq_true, if_false, List.append_assoc, List.cons_append]
+      exact Or.inr (Or.inl ⟨(resolvedCol 0 l).toNat, _, (hres l hgl).1, (hres l hgl).2, rfl⟩)
+  · have hfc : fullColOf l r = true := by simpa [hfr] using hopen
+    have hcell := a1_row_range_roundtrip 0 0 l r rest hgl hgr hfc hrest
+    simp only [tokenOf_zero] at hcell
+    apply nextToken_openStart cfg h sh hsh _ rest l r hcell
+    have hfr' : fullRowOf l r = false := by simpa using hfr
+    unfold printRangeA1
+    rw [hfr', hfc, printA1_rowonly 0 0 l hgl, printA1_rowonly 0 0 r hgr]
+    cases har : l.absRow with
+    | true =>
+      simp only [rowText, withDollar, if_true, List.cons_append]
+      exact Or.inl ⟨_, rfl⟩
+    | false =>
+      simp only [rowText, withDollar, Bool.false_eq_true, if_false, List.append_assoc, List.cons_append]
+      exact Or.inr (Or.inr ⟨(resolvedRow 0 l).toNat, _, rfl⟩)
+
+
 /-! ### every token class together -/
 
 theorem nextToken_ref (cfg : LexCfg) (h : CfgOK cfg) (sh : Option (List Char)) (r : PRef)
@@ -931,28 +1118,42 @@ theorem nextToken_ref (cfg : LexCfg) (h : CfgOK cfg) (sh : Option (List Char)) (
   rw [nextToken_cellStart cfg h sh r rest hsh hr hrest.2 _ _ hcell]
   simp [tokOfRange, ofRefTok, tokenOf_zero]
 
-/-- a range of two cells (neither whole rows nor whole columns), any sheet prefix, any `$` -/
+/-- a range: two cells, whole columns or whole rows; any sheet prefix, any `$` -/
 theorem nextToken_range (cfg : LexCfg) (h : CfgOK cfg) (sh : Option (List Char)) (l r : PRef)
     (rest : List Char) (hok : tokOK cfg (.range sh l r) = true)
     (hf : follow cfg (.range sh l r) rest = true) :
     nextToken cfg (renderTok cfg (.range sh l r) ++ rest) = some (.range sh l r, rest) := by
-  simp only [tokOK, Bool.and_eq_true, Bool.not_eq_true'] at hok
-  obtain ⟨⟨⟨⟨hsh, hl⟩, hr⟩, hfr⟩, hfc⟩ := hok
-  simp only [renderTok, h.a1, if_true, printRangeA1, hfr, hfc]
-  rw [printA1_pre _ 0 0 l (refOK_inGrid l hl)]
-  simp only [List.append_assoc, List.cons_append]
-  have hrest : stops isDigit rest = true := by
-    cases rest with
-    | nil => rfl
-    | cons d t =>
-      have hb := follow_cons hf
-      simp only [badNext] at hb
-      simp [stops, hb]
-  have hcell := consumeRangeA1_cells 0 0 l r rest (refOK_inGrid l hl) (refOK_inGrid r hr) hrest
-  have hX : plainStop cfg (':' :: (printA1 [] 0 0 r false false ++ rest)) = true := by
-    simp [plainStop, stops, isIdentChar, h.special_not_alnum ':' (by decide)]
-  rw [nextToken_cellStart cfg h sh l _ hsh hl (fun _ => hX) _ _ hcell]
-  simp [tokOfRange, ofRefTok, tokenOf_zero]
+  simp only [tokOK, Bool.and_eq_true] at hok
+  obtain ⟨⟨hsh, hl⟩, hr⟩ := hok
+  simp only [renderTok, h.a1, if_true]
+  by_cases hopen : (fullRowOf l r || fullColOf l r) = true
+  · have hrest : stops isAlphaOrDigit rest = true := by
+      cases rest with
+      | nil => rfl
+      | cons d t =>
+        have hb := follow_cons hf
+        simp only [badNext, hopen, if_true] at hb
+        simp [stops, hb]
+    exact nextToken_range_open cfg h sh l r rest hsh hl hr hopen hrest
+  · have hfr : fullRowOf l r = false := by
+      cases hx : fullRowOf l r <;> simp [hx] at hopen ⊢
+    have hfc : fullColOf l r = false := by
+      cases hx : fullColOf l r <;> simp [hx] at hopen ⊢
+    simp only [printRangeA1, hfr, hfc]
+    rw [printA1_pre _ 0 0 l (refOK_inGrid l hl)]
+    simp only [List.append_assoc, List.cons_append]
+    have hrest : stops isDigit rest = true := by
+      cases rest with
+      | nil => rfl
+      | cons d t =>
+        have hb := follow_cons hf
+        simp only [badNext, hopen, Bool.false_eq_true, if_false] at hb
+        simp [stops, hb]
+    have hcell := consumeRangeA1_cells 0 0 l r rest (refOK_inGrid l hl) (refOK_inGrid r hr) hrest
+    have hX : plainStop cfg (':' :: (printA1 [] 0 0 r false false ++ rest)) = true := by
+      simp [plainStop, stops, isIdentChar, h.special_not_alnum ':' (by decide)]
+    rw [nextToken_cellStart cfg h sh l _ hsh hl (fun _ => hX) _ _ hcell]
+    simp [tokOfRange, ofRefTok, tokenOf_zero]
 
 /-- **one token**: `next_token` on the text of a well-formed token, followed by anything that does
     not start with a character that glues to it, returns that token and leaves what follows -/
